@@ -135,6 +135,7 @@ C04_FUNCTIONS = MATCH_VARIANTS
 LEXMOD = ["self._pos", "self._lineno", "self._line_start", "self._pending_tok", "self._filename"]
 # nl(k) = number of newline characters in text[0:k]  (line numbers count newlines)
 _NL_GHOST = [("nl", ["int"], "int", ["_lexdata"])]
+_NL_IMPL = {"nl": "lambda k: self._lexdata.count('\\n', 0, max(0, k))"}   # executable definition for the run-time contract monitor
 _NL_AX = ["nl(0) == 0",
           "forall(lambda k: implies(0 <= k and k < len(self._lexdata), "
           "nl(k + 1) == nl(k) + (1 if char_at(self._lexdata, k) == '\\n' else 0)))"]
@@ -163,7 +164,7 @@ _NOERR = "ncalls('CLexer._handle_ppline') == old(ncalls('CLexer._handle_ppline')
 
 # exact view: the error callback raises (as installed by CParser), so positions stay exact on every path that continues
 contract("CLexer.token#exact", variant_of="CLexer.token", file=L, params={"self": "CLexer"}, returns="opt[Token]", use=_EXACT,
-         requires=["lex_inv(self)", "self._pos <= len(self._lexdata) + 1"], ghost=_NL_GHOST, axioms=_NL_AX,
+         requires=["lex_inv(self)", "self._pos <= len(self._lexdata) + 1"], ghost=_NL_GHOST, ghost_impl=_NL_IMPL, axioms=_NL_AX,
          ensures=[
              "lex_inv(self)",
              "self._pos >= old(self._pos)",
@@ -237,6 +238,11 @@ contract("CLexer._handle_pppragma#body", variant_of="CLexer._handle_pppragma", f
                   "implies(len(result) == 2, result[1].type == 'PPPRAGMASTR' and len(result[1].value) >= 1 and "
                   "result[1].lineno == old(self._lineno) and "
                   "result[1].value == substr(self._lexdata, result[1].column - 1 + old(self._line_start), result[1].column - 1 + old(self._line_start) + len(result[1].value)))",
+                  # layout between the word `pragma` and its text belongs to neither token (C17: spaces and tabs alike)
+                  "implies(len(result) == 2, char_at(result[1].value, 0) != ' ' and char_at(result[1].value, 0) != '\\t')",
+                  # lossless: when only PPPRAGMA is produced, everything consumed after the word `pragma` is layout
+                  "implies(len(result) == 1, forall(lambda i: implies(result[0].column - 1 + old(self._line_start) + 6 <= i and i < self._pos, "
+                  "char_at(self._lexdata, i) == ' ' or char_at(self._lexdata, i) == '\\t' or char_at(self._lexdata, i) == '\\n')))",
                   # line accounting: the newline that ends the directive is consumed and counted exactly once
                   "self._lineno == old(self._lineno) or (self._lineno == old(self._lineno) + 1 and self._line_start == self._pos "
                   "and char_at(self._lexdata, self._pos - 1) == '\\n')",
@@ -253,3 +259,5 @@ contract("CLexer._handle_pppragma#body", variant_of="CLexer._handle_pppragma", f
 PRAGMA_FUNCTIONS = ["CLexer._handle_pppragma#body"]
 C11_FUNCTIONS = C11_FUNCTIONS + PRAGMA_FUNCTIONS
 C09_FUNCTIONS = C09_FUNCTIONS + PRAGMA_FUNCTIONS
+C17_FUNCTIONS = C17_FUNCTIONS + PRAGMA_FUNCTIONS   # blanks around the pragma text are layout
+C06_FUNCTIONS = C06_FUNCTIONS + PRAGMA_FUNCTIONS   # no stray exception (IndexError / ValueError) from the directive scanner
